@@ -15,6 +15,7 @@ SeqToSet(s) == { s[i] : i \in 1..Len(s) }
 
 \* universes (override the constants in the cfg)
 TrNone == {}
+Def_both == BOOLEAN
 TrVerdicts == {"PASS", "FAIL", "TIMEOUT", "SILENCE", "BYPASS", "RAISE", "T", "F"}
 TrReasons == 1..5
 TrEnvs == {"bare", "lp", "lph", "lpo"}
@@ -39,7 +40,8 @@ PostOk == LET p == Tr[l].post IN
   /\ Cardinality({ e \in Entry : ph'[e] = "pend" }) = p.npit
   /\ Started = SeqToSet(p.vnew)
 
-TExpress == Ev("Express") /\ Express(Tr[l].t) /\ PostOk
+TExpress == Ev("Express") /\ Express(Tr[l].t, Tr[l].defer) /\ PostOk
+TAwait == Ev("Await") /\ Await(Tr[l].e) /\ PostOk
 TExpressDown == Ev("ExpressDown") /\ ExpressDown(Tr[l].t) /\ PostOk
 TRecvData == Ev("RecvData") /\ RecvData(Tr[l].d, Tr[l].env) /\ PostOk
 TValFinish == Ev("ValFinish") /\ (ValFinish(Tr[l].e, Tr[l].v) \/ LateFinish(Tr[l].e, Tr[l].v)) /\ PostOk
@@ -54,7 +56,7 @@ TShutdown == Ev("Shutdown") /\ Shutdown /\ PostOk
 TRecvNack == Ev("RecvNack") /\ RecvNack(Tr[l].t, Tr[l].r, Tr[l].env) /\ PostOk
 TRecvJunk == Ev("RecvJunk") /\ RecvJunk("junk") /\ PostOk
 
-TNext == \/ TExpress \/ TExpressDown \/ TRecvData \/ TValFinish \/ TValNobody \/ TFire \/ TFireNone
+TNext == \/ TExpress \/ TAwait \/ TExpressDown \/ TRecvData \/ TValFinish \/ TValNobody \/ TFire \/ TFireNone
          \/ TTick \/ TCancel \/ TCancelDone \/ TShutdown \/ TRecvNack \/ TRecvJunk
 TSpec == TInit /\ [][TNext]_tvars
 
